@@ -73,7 +73,7 @@ def _sector_cases(Ls, qds, Ds):
     for L in Ls:
         for qd in qds:
             for (_, qD) in palette.mps_structs(L, qd, Ds):
-                for kind in ('complex', 'real'):
+                for kind in ('complex', 'real', 'fortran'):
                     yield ['sector', qd, qD, kind]
 
 
